@@ -9,11 +9,18 @@ Oracle on the real code (generated MarkupTemplates, 1–4 py:match templates, al
   identity  inserting a template whose body reproduces the element never changes the output
   hints     buffer="false" on bodies with at most one select() and once="true" on templates that match
             at most one element (decided by the reference) never change the output
-Correspondence: the Lean model of `_match` (gdrv) on the generator's own flattening of the template.
+  rref      (real matcher class: documents with attributes, match paths with descendant steps, `//`,
+            attribute predicates and unions) the rendered events equal an independent Python reference
+            that evaluates the patterns on ancestor chains
+Correspondence: the Lean model of `_match` (gdrv) on the generator's own flattening of the template;
+streams match-real (the automaton model with the C05/C17 path model as matcher, match paths from
+harness/gen_paths.py's grammar) and match-xspec (the Lean specification whose "matches" relation is the
+XPath reference semantics of C05, vs the real events).
 """
 import copy, json, random
 from harness import proto
 from harness import gen_c12 as G
+from harness import gen_c12_real as R
 from harness.framework import Result, pmap
 from harness.proto import Atom
 
@@ -26,7 +33,13 @@ TRUSTED = [
     'not modelled: the XML parser, _flatten/_apply_directives (the generator flattens its own template description: '
     'py:for unrolled, data streams and included files spliced, py:match registrations in place), _include and the loader, the serializer',
     'theorems are parametric in an abstract matcher (state, step; laws: an END undoes its START, updateonly is not read); '
-    'GenericStrategy paths with positional predicates reach the real code in the oracle streams but have no Lean matcher',
+    'the parameter is discharged with the C05/C17 path model (Model/MatchReal.lean, modelled not verified, tied by the streams '
+    'match-real and match-xspec): FlagFree for every path, Lawful up to simulation for paths without position tests; '
+    'positional predicates are covered by the model and the correspondence, by no tree-rewrite theorem',
+    'the XPath reading of a match path is proved for GenericStrategy (C05 pattern_matches_eq_xp) and SingleStepStrategy (C17 '
+    'single_eq_generic); for SimplePathStrategy in pattern mode it is tied by match-xspec and the rref oracle only',
+    'the location form of the specification (xpForest/patternSel, driver verb xspec) is tied to the code by correspondence, '
+    'not proved equal to the marks form (mkKids/patternMarks) in Lean',
     'the forest parser of the driver verb `tree` (specification vs code) is unverified plumbing',
     'the push-style (automaton) reading of the generator pipeline for buffer="false" is validated by correspondence, not proved equal to Python generator semantics',
 ]
@@ -39,6 +52,11 @@ ASSUMPTIONS = [
     'xi:include (both loader modes) only as a child of the root: a run-time include inside a matched element is the '
     'known finding C12-include-in-match',
     'bodies are literal markup plus select() calls; buffer="false" only with at most one select() (documented requirement)',
+    'real-matcher class: documents with unprefixed names and attributes n, m; match paths without variables; the reference '
+    'oracles (rref, match-xspec) use the structured sub-grammar (names/*, child, descendant::, //, [@a], [@a="v"], [not(@a)], '
+    'unions), where genshi\'s predicate values are XPath\'s (outside it the recorded C05 findings apply)',
+    'repeat oracle: every rendering of one template object must equal the first one (whatever the absolute semantics of a '
+    'positional first step, finding C17-pattern-first-step-position)',
 ]
 
 FUEL = 400000
@@ -136,6 +154,8 @@ def well_formed(case):
         kind = case['kind']
         if kind in ('ref', 'staged'):
             return n >= 1
+        if kind == 'repeat':
+            return n >= 1 and case.get('mode') in ('twice', 'interleaved')
         if kind == 'nonmatch':
             return _ok_tmpl(case['tmpl']) and case['tmpl']['match'] in NEVER and 0 <= case['at'] <= len(kids)
         if kind == 'identity':
@@ -143,6 +163,50 @@ def well_formed(case):
         if kind == 'hints':
             return n >= 1 and all(0 <= i < n for i in case.get('buffer', []) + case.get('once', []))
         return False
+    except Exception:
+        return False
+
+
+def _ok_rnode(n):
+    return isinstance(n, str) or (isinstance(n, list) and len(n) == 3 and isinstance(n[0], str) and bool(_NAME.match(n[0]))
+                                  and isinstance(n[1], list) and all(_ok_rnode(k) for k in n[1])
+                                  and isinstance(n[2], list)
+                                  and all(isinstance(a, list) and len(a) == 2 and a[0] in R.ANAMES and isinstance(a[1], str)
+                                          and '"' not in a[1] for a in n[2])
+                                  and len(set(a[0] for a in n[2])) == len(n[2]))
+
+
+def _ok_spath(sp):
+    try:
+        return (isinstance(sp, list) and len(sp) >= 1 and all(
+            isinstance(st, list) and len(st) >= 1 and all(
+                isinstance(x, list) and len(x) == 3 and x[0] in ('child', 'desc', 'dos') and isinstance(x[1], str)
+                and (x[1] == '*' or _NAME.match(x[1]))
+                and (x[2] is None or (isinstance(x[2], list) and x[2][0] in ('has', 'eq', 'not') and x[2][1] in R.ANAMES
+                                      and len(x[2]) == (3 if x[2][0] == 'eq' else 2)
+                                      and all(isinstance(y, str) and '"' not in y for y in x[2])))
+                for x in st) and st[0][0] in ('child', 'dos') for st in sp))
+    except Exception:
+        return False
+
+
+def rwell_formed(case):
+    """a case of the real-matcher class the generator could have produced"""
+    try:
+        ts, doc = case['tmpls'], case['doc']
+        if not (isinstance(ts, list) and len(ts) >= 1 and isinstance(doc, list) and all(_ok_rnode(n) for n in doc)):
+            return False
+        for i in range(len(doc) - 1):
+            if isinstance(doc[i], str) and isinstance(doc[i + 1], str):
+                return False
+        for t in ts:
+            if not (_ok_spath(t.get('spath')) and t.get('match') == R.spath_text(t['spath']) and isinstance(t.get('body'), list)
+                    and _ok_body(t['body']) and all(isinstance(t.get(k), bool) for k in ('buffer', 'once', 'recursive'))
+                    and 'attrs' not in t):
+                return False
+            if not t['buffer'] and G.body_nsel(t['body']) > 1:
+                return False
+        return True
     except Exception:
         return False
 
@@ -166,6 +230,19 @@ def oracle_case(case):
             return {'case': case, 'what': 'buffer="false" does not change the output of a body that calls select() at most once',
                     'expected': r0, 'observed': r1}
         return None
+    if case.get('kind') == 'rref':
+        if not rwell_formed(case):
+            return None
+        base = {'tmpls': case['tmpls'], 'doc': case['doc']}
+        ref, _ = R.reference(base)
+        if ref[0] != 'ok':
+            return None
+        real = R.render_events(base)
+        if real != ref:
+            return {'case': case, 'what': 'output equals the declaration-order pipeline of tree rewrites, match paths read as '
+                    'XPath patterns (descendant steps, attribute predicates, unions) on ancestor chains',
+                    'expected': ref, 'observed': real}
+        return None
     if not well_formed(case):
         return None
     kind = case['kind']
@@ -176,8 +253,26 @@ def oracle_case(case):
     def bad(what, expected, observed):
         return {'case': case, 'what': what, 'expected': expected, 'observed': observed}
 
+    if kind == 'repeat':
+        # one template object, several renderings (one after the other, or two consumed in turns): every
+        # rendering must give the output of the first one, and the independent expectation where there is one
+        outs = G.render_many(base, case['mode'], 'xml')
+        for k, o in enumerate(outs[1:]):
+            if o != outs[0]:
+                return bad('every rendering of one template object rewrites the same elements (rendering %d of mode %s '
+                           'differs from the first rendering)' % (k + 2, case['mode']), outs[0], o)
+        if not positional(base) and documented_use(base) and 'auto_reload' not in base:
+            ref, _ = G.reference(base)
+            if ref[0] == 'ok' and outs[0] != ref:
+                return bad('output equals the declaration-order pipeline of tree rewrites (ref reference)', ref, outs[0])
+        return None
     if kind in ('ref', 'staged'):
-        real = G.render_real(base, 'xml')
+        # the template object is rendered twice: both renderings must meet the expectation
+        outs = G.render_many(base, 'twice', 'xml')[:2]
+        real = outs[0]
+        if len(outs) > 1 and outs[1] != outs[0]:
+            return bad('every rendering of one template object rewrites the same elements (the second rendering differs '
+                       'from the first)', outs[0], outs[1])
         if kind == 'ref':
             ref, _ = G.reference(base, root_visible=bool(case.get('root_visible', False)))
         else:
@@ -238,7 +333,27 @@ def top_positions(kids):
     return [i for i, it in enumerate(kids) if isinstance(it, dict) and 'match' in it]
 
 
+def gen_repeat_case(rng):
+    """one template object rendered repeatedly / two renderings interleaved; half of the cases carry a
+    multi-step match path with a positional predicate on its first step"""
+    c = G.rand_case(rng, hints=True, pos=rng.random() < 0.5, late=0.1, gen_markup=0.15, maxsel=2, inc=0.0, targeted=0.0)
+    ts = G.case_templates(c)
+    for t in ts:
+        if not t['buffer'] and G.body_nsel(t['body']) > 1:
+            G.set_hints(t, buffer=True)
+    if rng.random() < 0.6:
+        t = rng.choice(ts)
+        t['match'] = G.rand_path_first_pos(rng, G.DOC_NAMES)
+        if rng.random() < 0.6:
+            # a body that keeps the element visible, so that a wrong match shows
+            t['body'] = G.rand_body(rng, rng.choice(['wrap', 'wrapself', 'const']), maxsel=1)
+    return dict(c, kind='repeat', mode='interleaved' if rng.random() < 0.35 else 'twice')
+
+
 def gen_oracle_case(rng):
+    r = rng.random()
+    if r < 0.14:
+        return gen_repeat_case(rng)
     r = rng.random()
     if r < 0.30:
         # reference class: predicate-free paths of every strategy, all hints, late declarations, generated markup
@@ -353,6 +468,61 @@ def compare(cases, res, stream, verb='run'):
                 res.disagreements[-1]['case']['auto_reload'] = cases[i]['auto_reload']
 
 
+def compare_real(cases, res):
+    """the real-matcher class: model (automaton + path model) vs real events, Lean XPath specification vs real
+    events, and the Python reference oracle on the structured cases"""
+    lines = []
+    for c in cases:
+        w = R.wire_items(c)
+        lines.append(proto.line(Atom('C12'), Atom('real'), LAZY_FUEL, w))
+        # the XPath-reference specification: structured paths only (the richer predicates of gen_paths'
+        # grammar reach the recorded C05 findings, where genshi's predicate values are not XPath's)
+        if all(t.get('spath') for t in c['tmpls']):
+            lines.append(proto.line(Atom('C12'), Atom('xspec'), w))
+        else:
+            lines.append(proto.line(Atom('C12'), Atom('xspec'), []))
+    answers = proto.run_lines(lines)
+
+    def dec(ans):
+        try:
+            m = proto.dec(ans)
+        except Exception:
+            return ['bad', ans[:200]]
+        if isinstance(m, Atom):
+            return [str(m)]
+        if m and m[0] == 'ok':
+            return ['ok', [[str(x[0])] + [y if not isinstance(y, list) else [list(z) for z in y] for y in x[1:]] for x in m[1]]]
+        return [str(x) for x in m]
+
+    for i, c in enumerate(cases):
+        real = R.render_events(c)
+        res.evaluations += 1
+        for t in c['tmpls']:
+            R.path_shape(t['match'], res.count)
+            res.count('rstrategy:' + ('structured' if t.get('spath') else 'gen_paths'))
+        case = dict(c, kind='rref')
+        for stream, ans in (('match-real', answers[2 * i]), ('match-xspec', answers[2 * i + 1])):
+            m = dec(ans)
+            if m == ['unmodelled']:
+                res.count('model:%s:unmodelled' % stream)
+                continue
+            res.streams[stream] = res.streams.get(stream, 0) + 1
+            if m != real:
+                res.disagreements.append({'stream': stream, 'case': case, 'model': repr(m)[:600], 'real': repr(real)[:600]})
+        ref, fired = R.reference(c)
+        if ref[0] == 'ok':
+            res.count('oracle:rref')
+            if fired:
+                key = R.canon(c)
+                if len(key) < 1500:
+                    res.nontrivial.add(key)
+                res.count('rref:some-element-replaced')
+            if real != ref:
+                res.failures.append({'case': case, 'what': 'output equals the declaration-order pipeline of tree rewrites, match '
+                                     'paths read as XPath patterns (descendant steps, attribute predicates, unions) on ancestor chains',
+                                     'expected': ref, 'observed': real})
+
+
 # --------------------------------------------------------------------------
 
 def nontrivial_key(case):
@@ -376,6 +546,10 @@ def shard(arg):
         res.evaluations += 1
         res.count('oracle:' + case['kind'])
         ts = G.case_templates({'kids': case['kids']})
+        if case['kind'] == 'repeat':
+            res.count('repeat:' + case['mode'])
+            if any(G.first_step_positional(t['match']) for t in ts):
+                res.count('repeat:first-step-positional-multistep')
         res.count('templates:%d' % len(ts))
         txt = json.dumps(case['kids'])
         for tag, name in (('"inc"', 'include'), ('"for"', 'py:for'), ('"frag"', 'data-stream')):
@@ -406,6 +580,18 @@ def shard(arg):
     compare(cases, res, 'match-eager')
     compare(cases, res, 'match-lazy', 'lazy')
     compare(cases, res, 'match-spec', 'spec')
+    n_real = max(1, n_corr // 4)
+    rcases = []
+    for k in range(n_real):
+        if k % 2 == 0:
+            rc = R.rand_case(rng, structured=True)
+        else:
+            rc = R.rand_case(rng, structured=False, positional=rng.random() < 0.3)
+        for t in rc['tmpls']:
+            if not t['buffer'] and G.body_nsel(t['body']) > 1:
+                t['buffer'] = True
+        rcases.append(rc)
+    compare_real(rcases, res)
     return res
 
 
@@ -426,6 +612,11 @@ def run(ctx):
 def search(ctx, res, broken):
     found = []
     for d in res.disagreements[:300]:
+        if d['case'].get('kind') == 'rref':
+            f = oracle_case(d['case'])
+            if f:
+                found.append(f)
+            continue
         for kind in ('ref', 'staged'):
             c = dict(d['case'], kind=kind)
             if positional(c) or not documented_use(c):
